@@ -1,6 +1,7 @@
 import Norad.Model.FontSave
 import Norad.Lemmas.FontSave
 import Norad.Lemmas.Inplace
+import Norad.Generated.SaveOrder
 /-!
 # C08 — save validates before it destroys; saving in place keeps lazy data
 
@@ -196,5 +197,73 @@ example : ∃ k, saveImpl cfgN { angleFont with version := 2 } precious ["t".toL
 /-- a valid font does get through: the theorems above are not about a model that always refuses -/
 example : (saveImpl cfgN { angleFont with info := { body := 0, guides := [], valid := true, serialisable := true } }
     precious ["t".toList]).1 = none := by decide
+
+/-! ### source-level tie: the order of `Font::save_impl` as the code says it NOW
+
+`Generated.SaveOrder.saveSteps` is regenerated from `src/font.rs` of the checked tree on every run (tools/
+extract_save_order.py; pinned copy when an anchor is missing).  The model is untouched; these `decide` theorems compare
+the extracted sequence with what the model does. -/
+
+namespace Source
+open Generated.SaveOrder
+
+def pos (l : List (List Char)) (x : String) : Option Nat := l.findIdx? (· == x.toList)
+
+def precedes (l : List (List Char)) (a b : String) : Bool :=
+  match pos l a, pos l b with
+  | some i, some j => i < j
+  | _, _ => false
+
+/-- the steps of `validatePhase`, i.e. everything the model does before its first effect -/
+def modelValidators : List String := ["version", "objectlibs", "groups", "fontinfo", "force"]
+
+def isWrite (x : List Char) : Bool := "write:".toList.isPrefixOf x
+
+/-- a font with every part non-empty: its plan shows every write the model can make, in the model's order -/
+def probe : AFont Nat :=
+  { version := 3, metaTok := 1, info := { body := 1, guides := [], valid := true, serialisable := true },
+    lib := [("k".toList, LVal.v 1)], groups := 1, groupsValid := true, kerning := 1, features := 1,
+    layers := [{ name := "public.default".toList, dir := "glyphs".toList, info := 1,
+                 entries := [{ name := "a".toList, file := "a.glif".toList, glyph := some { tok := 1, encodable := true } }] }],
+    data := { root := [], items := [] }, images := { root := [], items := [] } }
+
+def effComps : Eff Nat → List Path.Comp
+  | .mkdir cs => cs
+  | .mkdirAll cs => cs
+  | .write cs _ => cs
+  | .fail _ => []
+
+/-- the component right below the target names the part being written -/
+def labelOf (cs : List Path.Comp) : Option (List Char) :=
+  match cs with
+  | _ :: .normal n :: _ => some (if n = "glyphs".toList then "write:layers".toList else "write:".toList ++ n)
+  | _ => none
+
+def dedupL (l : List (List Char)) : List (List Char) :=
+  l.foldl (fun acc x => if acc.contains x then acc else acc ++ [x]) []
+
+/-- the order in which the model's `plan` touches the parts of a UFO -/
+def planOrder : List (List Char) :=
+  dedupL ((plan cfgN probe [(Path.parse "a".toList, 1)] [(Path.parse "i.png".toList, 2)] ["t".toList]).filterMap
+    fun e => labelOf (effComps e))
+
+end Source
+
+open Source Generated.SaveOrder in
+/-- **In the source, every validation step stands before `remove_dir_all`** — and nothing else does: the steps in front
+    of the wipe are exactly the model's five validators (in any order among themselves), the wipe stands before
+    `create_dir(path)`, and every write after that. -/
+theorem source_validators_precede_wipe :
+    (modelValidators.all fun v => precedes saveSteps v "wipe") = true ∧
+    ((saveSteps.takeWhile (· != "wipe".toList)).all fun s => modelValidators.any fun v => v.toList == s) = true ∧
+    precedes saveSteps "wipe" "mkdir" = true ∧
+    ((saveSteps.filter isWrite).all fun w => precedes saveSteps "mkdir" (String.ofList w)) = true := by
+  decide
+
+open Source Generated.SaveOrder in
+/-- **The write order of the source is the order of the model's `plan`** (metainfo, fontinfo, lib, groups, kerning,
+    features, layercontents, layers, data, images), and the source has no write the plan does not make. -/
+theorem source_save_order_matches_plan : saveSteps.filter isWrite = planOrder := by
+  decide
 
 end C08
